@@ -215,13 +215,20 @@ def record_consistency(tb, files):
 REENTRANT = {
     # a template frame, a frame of another template, then the first template again (a call body, a caller.body()
     # round trip, an inherited block calling back into the child): the per-module cache of the frame walk is hit
-    "call-body": {"a.html": '<%namespace name="b" file="b.html"/>\nA line 2\n<%b:wrap>\n   A line 4 ${boom()}\n</%b:wrap>\n',
+    "call-body": {"a.html": '<%namespace name="b" file="b.html"/>\nA line 2\n<%b:wrap>\n   A line 4\n   A line 5 ${boom()}\n   A line 6\n</%b:wrap>\n',
                   "b.html": '\n## B line 2\n## B line 3\n<%def name="wrap()">\nB-before\n${caller.body()}\nB-after\n</%def>\n'},
     "block-in-child": {"a.html": '<%inherit file="b.html"/>\n\n<%block name="part">\n\n  ${boom()}\n</%block>\n',
                        "b.html": 'top\n<%block name="part">base</%block>\nend\n${next.body()}\n'},
     "three": {"a.html": '<%namespace name="b" file="b.html"/>\n<%b:wrap>\n<%b:wrap2>\n\n${boom()}\n</%b:wrap2>\n</%b:wrap>\n',
               "b.html": '<%namespace name="c" file="c.html"/>\n<%def name="wrap()">\n${caller.body()}\n</%def>\n<%def name="wrap2()">\n\n<%c:inner>${caller.body()}</%c:inner>\n</%def>\n',
               "c.html": '\n\n\n<%def name="inner()">\n\n\n${caller.body()}</%def>\n'},
+}
+
+
+# the template line of every template frame, outermost first: the call site is reported at its tag, the body at its own line
+EXPECT_FRAMES = {
+    "call-body": [("a.html", 3), ("b.html", 6), ("a.html", 5)],
+    "three": [("a.html", 2), ("b.html", 3), ("a.html", 3), ("b.html", 7), ("c.html", 7), ("b.html", 7), ("a.html", 5)],
 }
 
 
@@ -249,6 +256,9 @@ def run_reentrant(args):
         del LINE0[:]
         problems = record_consistency(tb, files)
         line0 = list(LINE0)
+        frames = [(os.path.basename(str(r[4])).lstrip("/"), r[5]) for r in tb.records if r[4] is not None and r[5] != 0]
+        if kind in EXPECT_FRAMES and frames != EXPECT_FRAMES[kind]:
+            problems.append("template frames reported as %r, the constructs are at %r" % (frames, EXPECT_FRAMES[kind]))
         if len(set(names)) < 2 or names[-1] != "a.html":
             problems.append("frames were %r: not the re-entrant shape this case is meant to produce" % names)
         if problems:
